@@ -25,6 +25,18 @@ uninterp spec fn norm_spec(enabled: bool, value: f64, range: Option<Range>) -> f
 #[verifier::external_body] fn convert_to_spherical(p: &mut Point) { unimplemented!() }
 #[verifier::external_body] fn convert_intensity(p: &mut Point) { unimplemented!() }
 #[verifier::external_body] fn transform_point(p: &mut Point, rotation: &[f64; 9], translation: &Translation) { unimplemented!() }
+/// Vec::reserve / VecDeque::reserve with the C09 allocation bound as precondition: one iterator step may only reserve room for
+/// the points it has actually decoded from the input (`cap`), never an amount taken from an untrusted count in the file
+#[verifier::external_body]
+fn shim_reserve_vec(additional: usize, cap: usize, v: &mut Vec<Point>)
+    requires additional <= cap
+    ensures final(v)@ == old(v)@
+{ unimplemented!() }
+#[verifier::external_body]
+fn shim_reserve_deque(additional: usize, cap: usize, v: &mut VecDeque<Point>)
+    requires additional <= cap
+    ensures final(v)@ == old(v)@
+{ unimplemented!() }
 #[verifier::external_body]
 fn shim_move_all(buffer: &mut Vec<Point>, points: &mut VecDeque<Point>)
     ensures final(buffer)@.len() == 0, final(points)@.len() == old(points)@.len() + old(buffer)@.len()
@@ -131,10 +143,17 @@ impl<'a> PointCloudReaderSimple<'a> {
         }
 //@endfn
 
+//@fn src/pc_reader_simple.rs PointCloudReaderSimple size_hint trait=Iterator serves=C05,C09,C08 ret=r
+//@sig
+        requires self.read <= self.pc.records,
+        // the remaining number of declared points (a number taken from the file's XML: never a bound for allocations)
+        ensures r.0 == (self.pc.records - self.read) as usize, r.1 == Some((self.pc.records - self.read) as usize),
+//@endfn
+
 //@fn src/pc_reader_simple.rs PointCloudReaderSimple next trait=Iterator serves=C05,C09,C08 ret=r
 //@rw Option<Self::Item> ==> Option<Result<Point>>
-//@rw self\.buffer\.reserve\(available\); ==> <empty>
-//@rw self\.points\.reserve\(available\); ==> <empty>
+//@rw self\.buffer\.reserve\((.*?)\); ==> shim_reserve_vec(\1, available, &mut self.buffer);
+//@rw self\.points\.reserve\((.*?)\); ==> shim_reserve_deque(\1, available, &mut self.points);
 //@rw for _ in 0\.\.available ==> for _k in it: 0..available
 //@rw for p in self\.buffer\.iter_mut\(\) \{\s*(\w+)\(p((?:, [^)]*)?)\);\s*\} ==> for bi in it: 0..self.buffer.len() { \1(&mut self.buffer[bi]\2); }
 //@rw for p in self\.buffer\.drain\(\.\.\) \{\s*self\.points\.push_back\(p\);\s*\} ==> shim_move_all(&mut self.buffer, &mut self.points);
